@@ -4,6 +4,7 @@ package mgmt
 
 import (
 	"encoding/hex"
+	"os"
 	"fmt"
 	"net"
 	"sort"
@@ -524,7 +525,11 @@ func runCase(id int, cs *caseSpec, emit func(string)) error {
 	for _, l := range cs.opsText() {
 		emit("# " + l)
 	}
-	w, err := newWorld(cs.localhop, "nametree", cs.faces)
+	algo := os.Getenv("VERIF_FIB")
+	if algo == "" {
+		algo = "nametree"
+	}
+	w, err := newWorld(cs.localhop, algo, cs.faces)
 	if err != nil {
 		return err
 	}
